@@ -1,13 +1,20 @@
 #!/bin/bash
-# usage: try_seed.sh <seed-dir-name> <PROP> [extra vf args]  -- applies a seeded patch to /repo, runs the check, restores /repo
+# usage: try_seed.sh <seed-dir-name> <PROP> [extra vf args]
+# Applies a seeded patch to a scratch worktree of /repo (outside /repo and /verif), runs the check against it through
+# VERIF_REPO, removes the worktree.  /repo itself is never touched (set INPLACE=1 for the apply-to-/repo protocol).
 S=/verif/seeded/$1; P=$2; shift 2
-cd /repo || exit 9
-[ -z "$(git status --porcelain -- graphtage)" ] || { echo "repo dirty"; exit 9; }
-if ! git apply $S/patch.diff 2>/dev/null; then
-  if ! patch -p1 -s --fuzz=3 --no-backup-if-mismatch < $S/patch.diff; then
-    echo "patch does not apply"; git checkout HEAD -- . ; git clean -fdq -- graphtage; exit 9
-  fi
+if [ "${INPLACE:-0}" = 1 ]; then
+  cd /repo || exit 9
+  [ -z "$(git status --porcelain -- graphtage)" ] || { echo "repo dirty"; exit 9; }
+  git apply $S/patch.diff 2>/dev/null || patch -p1 -s --fuzz=3 --no-backup-if-mismatch < $S/patch.diff || { echo "patch does not apply"; git checkout HEAD -- .; exit 9; }
+  cd /verif; ./vf $P --tier ${TIER:-quick} "$@" > /tmp/try_$P.$$.out 2> /tmp/try_$P.$$.err; rc=$?
+  cd /repo && git checkout HEAD -- . && git clean -fdq -- graphtage
+else
+  W=/tmp/seedwt/$(basename $S)-$P-$$; mkdir -p /tmp/seedwt
+  git -C /repo worktree add -q --detach $W HEAD || exit 9
+  ( cd $W && { git apply $S/patch.diff 2>/dev/null || patch -p1 -s --fuzz=3 --no-backup-if-mismatch < $S/patch.diff; } ) || { echo "patch does not apply"; git -C /repo worktree remove --force $W; exit 9; }
+  cd /verif; VERIF_REPO=$W ./vf $P --tier ${TIER:-quick} "$@" > /tmp/try_$P.$$.out 2> /tmp/try_$P.$$.err; rc=$?
+  git -C /repo worktree remove --force $W
 fi
-cd /verif; ./vf $P --tier ${TIER:-quick} "$@" > /tmp/try_$P.out 2> /tmp/try_$P.err; rc=$?
-cd /repo && git checkout HEAD -- . && git clean -fdq -- graphtage
-echo "seed=$(basename $S) prop=$P exit=$rc"; grep -h "VIOLATION\|KNOWN" /tmp/try_$P.out | head -5; grep -h "^violation\|^\[" /tmp/try_$P.err | head -6
+echo "seed=$(basename $S) prop=$P exit=$rc"; grep -h "VIOLATION" /tmp/try_$P.$$.out | head -3; grep -h "^violation\|^\[\|^INCONCL" /tmp/try_$P.$$.err | head -5
+rm -f /tmp/try_$P.$$.out /tmp/try_$P.$$.err
